@@ -273,6 +273,59 @@ def check(case: t.Any, ctx: Ctx) -> None:
                      f"accepting x writes: {[(j, short(d, 60)) for (j, d) in ok_members][:4]}")
 
 
+# ---- unions that arrive through a type variable ---------------------------------------------------------------------------------
+#
+# G[Union[float, int]] for class G(Generic[T]) with fields of the shapes T, Optional[List[T]], Dict[str, T], Annotated[List[T], c],
+# Optional[Dict[str, Union[T, str]]]: in every field the members are tried in the order *this* parametrization lists them - also when
+# the class was parametrized with the opposite order first (equal types made earlier must not lend their member order).
+
+_GF: t.Dict[str, t.Any] = {}
+GF_PAIRS = [('float', 'int'), ('int', 'float'), ('Decimal', 'float'), ('float', 'Decimal')]
+
+
+def gf_cases(shard: int, nshards: int) -> t.Iterator[t.Any]:
+    i = 0
+    for rnd in range(3):
+        for pair in GF_PAIRS:
+            if i % nshards == shard:
+                yield [rnd, list(pair)]
+            i += 1
+
+
+def check_generic_fields(case: t.Any, ctx: Ctx) -> None:
+    import pane
+    import decimal
+    import types as _types
+    import pane.annotations as A
+    (rnd, pair) = case
+    if 'G' not in _GF:
+        TV = t.TypeVar('TV')
+        cond = A.len_range(min=0, max=9)
+        _GF['G'] = _types.new_class('GenFields', (pane.PaneBase, t.Generic[TV]), {}, lambda ns: ns.update({'__annotations__': {
+            'plain': TV, 'nested': t.Optional[t.List[TV]], 'mapped': t.Dict[str, TV], 'ann': t.Annotated[t.List[TV], cond],
+            'mixed': t.Optional[t.Dict[str, t.Union[TV, str]]]}}))
+    G = _GF['G']
+    types_ = {'float': float, 'int': int, 'Decimal': decimal.Decimal}
+    (a, b) = (types_[pair[0]], types_[pair[1]])
+    other = G[t.Union[b, a]]       # type: ignore  # the opposite order exists (from an earlier case, or from now on)
+    Ty = G[t.Union[a, b]]          # type: ignore
+    ctx.label(f"order:{pair[0]},{pair[1]}")
+    ctx.nontrivial(True)
+    data = {'plain': 1, 'nested': [1], 'mapped': {'k': 1}, 'ann': [1], 'mixed': {'k': 1}}
+    ctx.evaluated()
+    (k, r) = outcome(lambda: pane.from_data(data, Ty))
+    want = a(1)
+    if k != 'ok':
+        ctx.fail('leftmost-wins', 'through-type-variable:refused', f"GenFields[Union[{pair[0]}, {pair[1]}]] given {data}: {type(r).__name__}: {str(r)[:200]}")
+        return
+    got = {'plain': r.plain, 'nested': r.nested[0], 'mapped': r.mapped['k'], 'ann': r.ann[0], 'mixed': r.mixed['k']}
+    wrong = {f: type(x).__name__ for (f, x) in got.items() if type(x) is not type(want)}
+    if wrong:
+        ctx.fail('leftmost-wins', 'through-type-variable', f"GenFields[Union[{pair[0]}, {pair[1]}]] (GenFields[Union[{pair[1]}, {pair[0]}]] exists too) given 1 in every field: "
+                 f"the left-most member {pair[0]} gives {want!r}, but fields {wrong} hold the other member's value")
+
+
 def suites(tier: str) -> t.List[Suite]:
     big = tier == 'thorough'
-    return [Suite('unions', check, strategy=cases, examples=10000 if big else 800, budget_s=480 if big else 40, render=render)]
+    return [Suite('unions', check, strategy=cases, examples=10000 if big else 800, budget_s=480 if big else 40, render=render),
+            Suite('generic-fields', check_generic_fields, cases=gf_cases, exhaustive=True, budget_s=30, render=lambda c: {'round': c[0], 'member order': c[1]})]
